@@ -2,7 +2,9 @@
 contract of property C07: in native mode with no interrupt pending, one Step over a straight-line opcode
 advances PC by the architectural length (a function of M / X for the flag-dependent immediates), keeps the
 program bank, E and the interrupt latch, changes M / X only for REP / SEP (by the operand byte), and changes
-memory only where it logs a write.  Engines: Props/SafeLib.v (routine frame lemmas), Props/CoupleLib.v."""
+memory only where it logs a write; and one Step over a conditional branch whose condition is false (status
+flags known by value) advances PC by 2 and keeps the bank, M, X, E, the latch and the whole memory.
+Engines: Props/SafeLib.v (routine frame lemmas), Props/CoupleLib.v."""
 import os
 import re
 from checks import cpusafe
@@ -12,6 +14,10 @@ from checks import cpusafe
 NOT_STRAIGHT = {"BCC", "BCS", "BEQ", "BMI", "BNE", "BPL", "BRA", "BRL", "BVC", "BVS", "JML", "JMP", "JSL", "JSR",
                 "RTI", "RTL", "RTS", "BRK", "COP", "PLP", "XCE", "STP", "WAI", "MVN", "MVP"}
 EQ_TRACKED = ["f_PC", "f_stepPC", "f_RK", "f_M", "f_X", "f_E", "f_Interrupt"]
+# conditional branches: opcode -> (flag variable of the lemma, value under which the branch falls through)
+# (own statement from the WDC instruction set; compared with Props/CoupleProps.br_taken in Coq on every run)
+COND = {0x10: ("fn", 1), 0x30: ("fn", 0), 0x50: ("fv", 1), 0x70: ("fv", 0),
+        0x90: ("fc", 1), 0xB0: ("fc", 0), 0xD0: ("fz", 1), 0xF0: ("fz", 0)}
 SPECIAL = {"op_rep", "op_sep", "SetFlags"}
 
 
@@ -50,6 +56,11 @@ Notation TT := (fun _ : Z => True).
 Notation BT Ppc Psp rk m x Pea :=
   (ovr f_PC Ppc (ovr f_stepPC Psp (ovr f_RK (eq rk) (ovr f_M (eq m) (ovr f_X (eq x) (ovr f_E (eq 0) (ovr f_Interrupt (eq 1)
   (ovr f_C bitp (ovr f_Z bitp (ovr f_I bitp (ovr f_D bitp (ovr f_V bitp (ovr f_N bitp
+  (ovr f_StepInfo_EA Pea (Bty fwidth))))))))))))))).
+(* the same with predicates on the four flags a conditional branch tests (by value: [eq c]) *)
+Notation BTF Ppc Psp rk m x Pc Pz Pv Pn Pea :=
+  (ovr f_PC Ppc (ovr f_stepPC Psp (ovr f_RK (eq rk) (ovr f_M (eq m) (ovr f_X (eq x) (ovr f_E (eq 0) (ovr f_Interrupt (eq 1)
+  (ovr f_C Pc (ovr f_Z Pz (ovr f_I bitp (ovr f_D bitp (ovr f_V Pv (ovr f_N Pn
   (ovr f_StepInfo_EA Pea (Bty fwidth))))))))))))))).
 
 Ltac relax_user H2 := first [ exact I | exact H2 ].
@@ -229,6 +240,52 @@ def generate(path, mod, isa_path, ea_field="f_StepInfo_EA"):
     files["C07_%s_rep" % mod] = shard_hdr + STEP_REPSEP % {"kind": "rep"}
     files["C07_%s_sep" % mod] = shard_hdr + STEP_REPSEP % {"kind": "sep"}
     lemmas += ["step_rep", "step_sep"]
+    # ---- 4b. conditional branches that fall through
+    br_rows, br_ops, br_unproved = [], [], []
+    for op in sorted(COND):
+        var, val = COND[op]
+        p = op_proc[op]
+        if mn[op] not in ("BPL", "BMI", "BVC", "BVS", "BCC", "BCS", "BNE", "BEQ") or p not in byname or int(tbl_mode.get(op, -1)) != 23:
+            br_unproved.append((op, p))
+            continue
+        args = " ".join(str(val) if v == var else v for v in ("fc", "fz", "fv", "fn"))
+        quant = " ".join(v for v in ("fc", "fz", "fv", "fn") if v != var)
+        hb = {"fc": "Hbc", "fz": "Hbz", "fv": "Hbv", "fn": "Hbn"}[var]
+        br_rows.append(BR_ROW % {"op": op, "proc": p, "args": args, "quant": quant, "var": var, "val": val, "hb": hb,
+                                 "bits": " | ".join("apply bitp_%d" % val if v == var else "assumption" for v in ("fc", "fz", "fv", "fn"))})
+        br_ops.append(op)
+        lemmas += ["nt_%d" % op, "cbr_%d" % op]
+    lines = [BR_COMMON] + br_rows
+    lines.append("Definition br_ops : list Z := [%s].\n" % "; ".join(str(o) for o in br_ops))
+    lines.append("Theorem C07_br_%s : forall op, In op br_ops -> contract_br_at op.\nProof.\n  intros op Hin. unfold br_ops in Hin. cbn [In] in Hin.\n"
+                 "  repeat (destruct Hin as [Hin|Hin]; [subst op|]); try contradiction.\n%s\nQed.\n" % (mod, "\n".join("  - exact cbr_%d." % o for o in br_ops)))
+    lines.append("Print Assumptions C07_br_%s.\n" % mod)
+    files["C07_%s_br" % mod] = shard_hdr + "From Props Require Import CoupleProps.\n\n" + "\n".join(lines)
+    lemmas += ["step_br"]
+    # ---- 4c. block moves: PC stays on the instruction or advances by the table size
+    mv_rows, mv_ops, mv_unproved, mv_done = [], [], [], set()
+    for op in (0x44, 0x54):
+        p = op_proc[op]
+        if mn[op] not in ("MVP", "MVN") or p not in byname or int(tbl_mode.get(op, -1)) != 22 or byname[p]["params"]:
+            mv_unproved.append((op, p))
+            continue
+        if p not in mv_done:
+            mv_done.add(p)
+            alts = calls_of(p, "fr")
+            callt = "fun _ => lazymatch goal with %s end" % " ".join(alts) if alts else "fun _ => fail"
+            ea = "(rng 24)" if uses[p] else "ea"
+            mv_rows.append(MV_ROUTINE % {"proc": p, "eaq": "" if uses[p] else "(ea : Z -> Prop) ", "ea": ea, "call": callt})
+            lemmas.append("mvr_" + p)
+        mv_rows.append(MV_ROW % {"op": op, "proc": p})
+        mv_ops.append(op)
+        lemmas += ["rmv_%d" % op, "cmv_%d" % op]
+    lines = [MV_COMMON] + [r for r in mv_rows if r.startswith("Lemma mvr_")] + [MV_STEP] + [r for r in mv_rows if not r.startswith("Lemma mvr_")]
+    lines.append("Definition mv_ops : list Z := [%s].\n" % "; ".join(str(o) for o in mv_ops))
+    lines.append("Theorem C07_mv_%s : forall op, In op mv_ops -> contract_mv_at op.\nProof.\n  intros op Hin. unfold mv_ops in Hin. cbn [In] in Hin.\n"
+                 "  repeat (destruct Hin as [Hin|Hin]; [subst op|]); try contradiction.\n%s\nQed.\n" % (mod, "\n".join("  - exact cmv_%d." % o for o in mv_ops)))
+    lines.append("Print Assumptions C07_mv_%s.\n" % mod)
+    files["C07_%s_mv" % mod] = shard_hdr + "\n".join(lines)
+    lemmas += ["step_mv"]
     # ---- 5. per opcode
     out = [shard_hdr, "From Run Require Import %s.\nFrom Model Require Import Emitter.\nFrom Props Require Import CoupleProps.\n" % " ".join(sorted(n for n in files if not n.endswith("_base")))]
     rows = []
@@ -258,10 +315,11 @@ def generate(path, mod, isa_path, ea_field="f_StepInfo_EA"):
     out.append("\n".join(lines))
     out.append(LEN_AGREES % {"mod": mod})
     out.append(INSTANCE % {"mod": mod})
-    out.append("Print Assumptions C07_contract_%s.\nPrint Assumptions C07_len_%s.\nPrint Assumptions C07_partial_%s.\n" % (mod, mod, mod))
+    out.append("Print Assumptions C07_contract_%s.\nPrint Assumptions C07_len_%s.\nPrint Assumptions c_br_contract.\nPrint Assumptions C07_moves_%s.\nPrint Assumptions C07_moves_dedup_%s.\nPrint Assumptions C07_partial_%s.\nPrint Assumptions C07_partial_patched_%s.\n" % (mod, mod, mod, mod, mod, mod))
     files["C07_%s" % mod] = "\n".join(out)
     return files, {"lemmas": lemmas, "straight": straight, "proved": proved, "unproved": unproved, "skipped": skipped,
-                   "needed": sorted(needed), "modes": modes}
+                   "needed": sorted(needed), "modes": modes, "br_ops": br_ops, "br_unproved": br_unproved,
+                   "mv_ops": mv_ops, "mv_unproved": mv_unproved}
 
 
 SHARD_HDR = """(* GENERATED per run by checks/cpucouple.py (property C07, model %(mod)s) *)
@@ -447,6 +505,120 @@ Proof.
 Qed.
 """
 
+BR_COMMON = """(* ---- conditional branches whose condition is false.  The four flags a branch can test are carried by value. *)
+(* what the routine of such an opcode has to satisfy under these flag values: it changes nothing *)
+Definition routine_nt (op fc fz fv fn : Z) : Prop := forall pc sp rk m x m0 s1,
+  Inv (BTF (eq pc) (eq sp) rk m x (eq fc) (eq fz) (eq fv) (eq fn) (rng 24)) s1 -> mem s1 = m0 ->
+  safe (fun _ s' => True /\\ Inv (BTF (eq pc) (eq sp) rk m x (eq fc) (eq fz) (eq fv) (eq fn) (rng 24)) s' /\\ mem s' = m0) (tbl_proc op s1).
+
+Ltac step_start_f :=
+  lazymatch goal with
+  | Hi : Inv (BTF (eq ?pc) TT ?rk ?m ?x (eq ?fc) (eq ?fz) (eq ?fv) (eq ?fn) TT) ?s |- _ =>
+      let Hi' := fresh "Hi" in
+      assert (Hi' : Inv (BTF (eq pc) (eq (get f_stepPC s)) rk m x (eq fc) (eq fz) (eq fv) (eq fn) (eq (get f_StepInfo_EA s))) s)
+        by (eapply inv_relayer_self; [exact Hi | self_tac]);
+      clear Hi;
+      assert (Hpc : rng 16 pc) by (rewrite (inv_ovr_get _ f_PC (eq pc) s Hi'); solve_rng);
+      assert (Hrk : rng 8 rk) by (let p := layer_pf Hi' f_RK s in rewrite p; solve_rng);
+      assert (Hm8 : rng 8 m) by (apply bitp_rng; [lia | assumption]);
+      assert (Hx8 : rng 8 x) by (apply bitp_rng; [lia | assumption]);
+      generalize (get f_stepPC s) (get f_StepInfo_EA s) Hi'; clear Hi'; intros sp0 ea0 Hi
+  end.
+(* Step over an opcode of the PC-relative mode whose routine falls through: PC advances by the table size, the flags,
+   M, X, the bank, E, the latch and the WHOLE memory are kept (the memory hypothesis is carried through the routine) *)
+Lemma step_br : forall op pc rk m x fc fz fv fn s, rng 8 op -> tbl_mode op = 23 -> routine_nt op fc fz fv fn -> bitp m -> bitp x ->
+  bitp fc -> bitp fz -> bitp fv -> bitp fn ->
+  Inv (BTF (eq pc) TT rk m x (eq fc) (eq fz) (eq fv) (eq fn) TT) s -> mem s (w_or (shl32 rk 16) pc) mod 256 = op ->
+  safe (fun _ s' => True /\\ Inv (BTF (eq (add16 pc (tbl_size op))) TT rk m x (eq fc) (eq fz) (eq fv) (eq fn) TT) s' /\\ mem s' = mem s) (Step s).
+Proof.
+  intros op pc rk m x fc fz fv fn s Hop Hmode Hproc Hbm Hbx Hbc Hbz Hbv Hbn Hi Hfetch. step_start_f.
+  assert (Hm : mem s = mem s) by reflexivity. revert Hm Hfetch. generalize (mem s) at 2 3 4. intros m0 Hm Hfetch.
+  cbv beta delta [Step].
+  crun ltac:(fun _ => first [ m_calls | lazymatch goal with |- safe _ (tbl_proc _ _) => eapply Hproc; eassumption end ])
+       ltac:(fun _ => step_calls Hproc) ea_sethook ltac:(fun _ => step_hook Hmode Hfetch).
+  all: cbv beta; (split; [ exact I | split; [ eapply inv_relax; [eassumption | relax_tac] | assumption ] ]).
+Qed.
+
+(* the contract of one conditional-branch opcode: flags by value, condition false (CoupleProps.br_taken) *)
+Definition contract_br_at (op : Z) : Prop := forall pc rk m x fc fz fv fn s, bitp m -> bitp x -> bitp fc -> bitp fz -> bitp fv -> bitp fn ->
+  Inv (BTF (eq pc) TT rk m x (eq fc) (eq fz) (eq fv) (eq fn) TT) s -> mem s (w_or (shl32 rk 16) pc) mod 256 = op ->
+  br_taken op fn fv fc fz = false ->
+  safe (fun _ s' => Inv (BT (eq (add16 pc (tbl_size op))) TT rk m x TT) s' /\\ mem s' = mem s) (Step s).
+
+(* from [eq c] with c a bit to [bitp] *)
+Ltac relax_user H2 ::= first [ exact I | exact H2 | (rewrite <- H2; assumption) ].
+"""
+
+BR_ROW = """(* $%(op)02X: falls through when %(var)s = %(val)d *)
+Lemma nt_%(op)d : forall %(quant)s, routine_nt %(op)d %(args)s.
+Proof.
+  intros %(quant)s pc sp rk m x m0 s1 Hi Hm. change (tbl_proc %(op)d s1) with (%(proc)s s1). cbv beta delta [%(proc)s].
+  crun no_call no_call no_sethook no_hook.
+  all: cbv beta; first [ solve [ split; [ exact I | split; [ first [ assumption | eapply inv_relax; [eassumption | relax_tac] ] | assumption ] ] ]
+                       | fail 2 "%(proc)s (opcode %(op)d) does not fall through leaving PC, stepPC, PBR, M, X, E, the flags and memory alone when %(var)s = %(val)d" ].
+Qed.
+Lemma cbr_%(op)d : contract_br_at %(op)d.
+Proof.
+  intros pc rk m x fc fz fv fn s Hbm Hbx Hbc Hbz Hbv Hbn Hi Hf Hnt.
+  assert (E : %(var)s = %(val)d) by (destruct %(hb)s as [E|E]; rewrite E in Hnt; first [ exact E | (exfalso; vm_compute in Hnt; discriminate Hnt) ]).
+  subst %(var)s.
+  eapply safe_weaken; [ eapply (step_br %(op)d pc rk m x %(args)s s); [ rng_const | reflexivity | apply nt_%(op)d | assumption | assumption | %(bits)s | exact Hi | exact Hf ] | ].
+  intros r s' [_ [H1 H2]]. split; [ eapply inv_relax; [exact H1 | relax_tac] | exact H2 ].
+Qed.
+"""
+
+MV_COMMON = """(* ---- block moves MVP / MVN.  Their routine assigns stepPC (0 = "execute me again"), so it has no frame lemma of the
+   general shape; it keeps the invariant with the pending step length either as it was or 0 *)
+Definition mvsp (sp v : Z) : Prop := v = 0 \\/ v = sp.
+Ltac ovr_hook ::= first [ solve_bitp | reflexivity | exact I | (left; reflexivity) ].
+Ltac relax_user H2 ::= first [ exact I | exact H2 | (right; symmetry; exact H2) | (left; symmetry; exact H2) ].
+
+Definition routine_mv (op : Z) : Prop := forall pc sp rk m x s1,
+  Inv (BT (eq pc) (eq sp) rk m x (rng 24)) s1 ->
+  safe (fun _ s' => True /\\ Inv (BT (eq pc) (mvsp sp) rk m x (rng 24)) s') (tbl_proc op s1).
+"""
+
+MV_ROUTINE = """Lemma mvr_%(proc)s : forall (Ppc : Z -> Prop) sp rk m x %(eaq)ss, Inv (BT Ppc (mvsp sp) rk m x %(ea)s) s ->
+  safe (fun r s' => True /\\ Inv (BT Ppc (mvsp sp) rk m x %(ea)s) s') (%(proc)s s).
+Proof. intros; cbv beta delta [%(proc)s]; safe_run ltac:(%(call)s). Qed.
+"""
+
+MV_STEP = """(* Step over an opcode of the block-move mode: PC stays (written add16 pc 0) or advances by the table size; bank, M, X,
+   E, the latch kept *)
+Lemma step_mv : forall op pc rk m x s, rng 8 op -> tbl_mode op = 22 -> routine_mv op -> bitp m -> bitp x ->
+  Inv (BT (eq pc) TT rk m x TT) s -> mem s (w_or (shl32 rk 16) pc) mod 256 = op ->
+  safe (fun _ s' => True /\\ Inv (BT (fun v => v = add16 pc 0 \\/ v = add16 pc (tbl_size op)) TT rk m x TT) s') (Step s).
+Proof.
+  intros op pc rk m x s Hop Hmode Hproc Hbm Hbx Hi Hfetch. step_start.
+  assert (Hm : mem s = mem s) by reflexivity. revert Hm Hfetch. generalize (mem s) at 2 3. intros m0 Hm Hfetch.
+  cbv beta delta [Step].
+  crun ltac:(fun _ => m_calls) ltac:(fun _ => step_calls Hproc) ea_sethook ltac:(fun _ => step_hook Hmode Hfetch).
+  all: cbv beta; (split; [exact I|]);
+    match goal with
+    | Hs : Inv _ ?sa, H : Inv (ovr f_PC (eq (add16 _ (get f_stepPC ?sa))) _) _ |- _ =>
+        let p := layer_pf Hs f_stepPC sa in pose proof p as Hsp; cbv beta in Hsp; destruct Hsp as [Hsp|Hsp]; rewrite Hsp in H;
+        (eapply inv_relax; [exact H | relax_tac])
+    end.
+Qed.
+
+Definition contract_mv_at (op : Z) : Prop := forall pc rk m x s, bitp m -> bitp x ->
+  Inv (BT (eq pc) TT rk m x TT) s -> mem s (w_or (shl32 rk 16) pc) mod 256 = op ->
+  safe (fun _ s' => Inv (BT (fun v => v = add16 pc 0 \\/ v = add16 pc (tbl_size op)) TT rk m x TT) s' /\\ Frame s s') (Step s).
+"""
+
+MV_ROW = """Lemma rmv_%(op)d : routine_mv %(op)d.
+Proof.
+  intros pc sp rk m x s1 Hi. change (tbl_proc %(op)d s1) with (%(proc)s s1).
+  eapply mvr_%(proc)s. eapply inv_relax; [exact Hi | relax_tac].
+Qed.
+Lemma cmv_%(op)d : contract_mv_at %(op)d.
+Proof.
+  intros pc rk m x s Hbm Hbx Hi Hf. apply safe_and_fr; [|apply mf_Step].
+  eapply safe_weaken; [ eapply (step_mv %(op)d pc rk m x s); [ rng_const | reflexivity | exact rmv_%(op)d | assumption | assumption | exact Hi | exact Hf ] | ].
+  intros r s' [_ H']. exact H'.
+Qed.
+"""
+
 CONTRACT = """(* ---- the contract of one opcode *)
 (* length by which this model's Step advances PC *)
 Definition cpu_len (op m x : Z) : Z :=
@@ -569,6 +741,60 @@ Proof.
   intro a. apply Frame_mem. exact Hfr.
 Qed.
 
+(* ---- the clause for the conditional branches *)
+Definition c_fn (s : st) : Z := get f_N s.
+Definition c_fv (s : st) : Z := get f_V s.
+Definition c_fc (s : st) : Z := get f_C s.
+Definition c_fz (s : st) : Z := get f_Z s.
+
+Lemma br_len_b : forallb (fun op => (tbl_size op =? 2) && (tbl_mode op =? 23)) br_ops = true.
+Proof. vm_compute. reflexivity. Qed.
+Lemma br_covered_b : forallb (fun op => memZ op br_ops) cond_ops = true.
+Proof. vm_compute. reflexivity. Qed.
+Lemma br_covered : forall op, cond_branch op = true -> In op br_ops.
+Proof.
+  intros op H. apply cond_branch_in in H. pose proof br_covered_b as Hc. rewrite forallb_forall in Hc. specialize (Hc op H).
+  unfold memZ in Hc. apply existsb_exists in Hc. destruct Hc as [y [Hin Hy]]. apply Z.eqb_eq in Hy. subst y. exact Hin.
+Qed.
+
+Lemma c_ok_flags : forall s pc rk m x, Inv (BT (eq pc) TT rk m x TT) s ->
+  bitp (c_fc s) /\\ bitp (c_fz s) /\\ bitp (c_fv s) /\\ bitp (c_fn s) /\\
+  Inv (BTF (eq pc) TT rk m x (eq (c_fc s)) (eq (c_fz s)) (eq (c_fv s)) (eq (c_fn s)) TT) s.
+Proof.
+  intros s pc rk m x Hi. unfold c_fc, c_fz, c_fv, c_fn.
+  let p := layer_pf Hi f_C s in pose proof p as H1.
+  let p := layer_pf Hi f_Z s in pose proof p as H2.
+  let p := layer_pf Hi f_V s in pose proof p as H3.
+  let p := layer_pf Hi f_N s in pose proof p as H4.
+  cbv beta in *. split; [exact H1|]. split; [exact H2|]. split; [exact H3|]. split; [exact H4|].
+  eapply inv_relayer_self; [exact Hi | self_tac].
+Qed.
+
+Theorem c_br_contract : forall brs, br_contract st c_step c_ok c_pc c_rk c_m c_x mem c_fn c_fv c_fc c_fz brs.
+Proof.
+  intros brs s op [pc [rk [m [x [Hbm [Hbx Hi]]]]]] _ Hcb Hfetch Hnt.
+  destruct (c_ok_vals s pc rk m x Hi) as [E1 [E2 [E3 [E4 [R1 R2]]]]].
+  destruct (c_ok_flags s pc rk m x Hi) as [Bc [Bz [Bv [Bn Hif]]]].
+  pose proof (br_covered op Hcb) as Hin.
+  assert (R1' : 0 <= c_pc s < 65536) by (unfold rng in R1; change (2 ^ 16) with 65536 in R1; exact R1).
+  assert (R2' : 0 <= c_rk s < 256) by (unfold rng in R2; change (2 ^ 8) with 256 in R2; exact R2).
+  assert (Hf : mem s (w_or (shl32 rk 16) pc) mod 256 = op).
+  { rewrite E1, E2. rewrite lor_shl16 by assumption. exact Hfetch. }
+  pose proof (C07_br_%(mod)s op Hin pc rk m x _ _ _ _ s Hbm Hbx Bc Bz Bv Bn Hif Hf Hnt) as Hc.
+  assert (Hsz : tbl_size op = 2).
+  { pose proof br_len_b as Hl. rewrite forallb_forall in Hl. specialize (Hl op Hin). apply andb_true_iff in Hl. destruct Hl as [Hl _].
+    apply Z.eqb_eq in Hl. exact Hl. }
+  unfold c_step. destruct (Step s) as [r s'|]; cbn [safe] in Hc; [|contradiction].
+  destruct Hc as [Hi' Hmem]. exists s'. split; [reflexivity|].
+  destruct (c_ok_vals s' _ _ _ _ Hi') as [F1 [F2 [F3 [F4 _]]]].
+  split; [eexists _, _, _, _; split; [exact Hbm | split; [exact Hbx | exact Hi']]|].
+  split; [rewrite <- F2, <- E2; reflexivity|].
+  split; [rewrite <- F1, <- E1, Hsz; reflexivity|].
+  split; [rewrite <- F3, <- E3; reflexivity|].
+  split; [rewrite <- F4, <- E4; reflexivity|].
+  intro a. rewrite Hmem. reflexivity.
+Qed.
+
 (* ---- non-vacuity: a concrete state satisfying the hypotheses of the contract (LDA #imm with M = 1, X = 0 at $00:8000);
    the contract then yields a successor state at $00:8002 with the widths unchanged *)
 Definition ex_regs (f : N) : Z :=
@@ -600,11 +826,38 @@ Proof.
   exists s'. split; [exact H1|]. split; [exact H2|]. split; [exact H3 | exact H4].
 Qed.
 
-(* C07 for this interpreter: Props/CoupleProps.C07_couple with the abstract CPU instantiated.
-   _partial: relative to the property's wording ("no TAKEN control transfer") conditional branches that are not
-   taken at run time are not covered -- every branch / jump / call / return opcode is outside [straight] *)
+(* ... and of the branch clause: BNE with Z = 1 at $00:8000 falls through to $00:8002 *)
+Definition ex_regs_br (f : N) : Z :=
+  if N.eqb f f_PC then 32768 else if N.eqb f f_Interrupt then 1 else if N.eqb f f_M then 1 else if N.eqb f f_Z then 1 else 0.
+Definition ex_state_br : st := mkst ex_regs_br (fun a => if a =? 32768 then 208 else 255) [] (fun _ => false) false.
+
+Example ex_c_ok_br : c_ok ex_state_br.
+Proof.
+  exists 32768, 0, 1, 0. split; [right; reflexivity|]. split; [left; reflexivity|]. split; [|constructor].
+  intro f. unfold get, ex_state_br, regs.
+  repeat lazymatch goal with |- ovr ?h _ _ _ _ => split; [| destruct (N.eqb_spec f h) as [E|E]; [subst f; vm_compute; auto | exact I]] end.
+  unfold Bty. destruct (fwidth f =? 0) eqn:E0; [exact I|].
+  unfold ex_regs_br.
+  destruct (N.eqb_spec f f_PC) as [->|_]; [vm_compute; split; [discriminate | reflexivity]|].
+  destruct (N.eqb_spec f f_Interrupt) as [->|_]; [vm_compute; split; [discriminate | reflexivity]|].
+  destruct (N.eqb_spec f f_M) as [->|_]; [vm_compute; split; [discriminate | reflexivity]|].
+  destruct (N.eqb_spec f f_Z) as [->|_]; [vm_compute; split; [discriminate | reflexivity]|].
+  unfold rng. split; [lia|]. apply pow2_pos. apply fwidth_nonneg.
+Qed.
+
+Example ex_step_br : exists s', c_step ex_state_br = Some s' /\\ c_pc s' = 32770 /\\ c_m s' = 1 /\\ c_x s' = 0 /\\ mem s' 32769 = 255.
+Proof.
+  destruct (c_br_contract cond_branch ex_state_br 208 ex_c_ok_br eq_refl eq_refl eq_refl eq_refl) as [s' [H1 [_ [_ [H2 [H3 [H4 H5]]]]]]].
+  exists s'. split; [exact H1|]. split; [exact H2|]. split; [exact H3|]. split; [exact H4|]. rewrite H5. reflexivity.
+Qed.
+
+(* C07 for this interpreter: Props/CoupleProps.C07_couple with the abstract CPU instantiated; the program may contain
+   the 227 straight-line opcodes and the eight conditional branches, the latter under the run hypothesis [nottaken]
+   (whenever Step starts on a conditional branch, its condition is false in that state).
+   _partial: relative to the property's wording the block moves MVN / MVP (which repeat their own start), WAI / STP and
+   XCE are still outside; so is everything that always transfers control or restores M / X from the stack. *)
 Theorem C07_partial_%(mod)s : forall ops e0 b s0,
-  straightline ops e0 -> buf e0 = Some b -> 0 <= n e0 <= ZList.zlen b ->
+  straightline cond_branch ops e0 -> buf e0 = Some b -> 0 <= n e0 <= ZList.zlen b ->
   let ef := fst (run ops e0) in
   let bank := address e0 / 65536 in
   0 <= address e0 < 16777216 ->
@@ -612,7 +865,100 @@ Theorem C07_partial_%(mod)s : forall ops e0 b s0,
   (forall i, 0 <= i < n ef - n e0 -> mem s0 (address e0 + i) = ZList.znth (Bytes ef) (n e0 + i)) ->
   c_ok s0 -> addr24 (c_rk s0) (c_pc s0) = address e0 -> c_m s0 = mbit e0 -> c_x s0 = xbit e0 ->
   nowrite st c_step wrote (List.length (starts ops e0)) s0 (address e0) (address e0 + (n ef - n e0)) ->
+  nottaken st c_step c_pc c_rk mem c_fn c_fv c_fc c_fz cond_branch (List.length (starts ops e0)) s0 ->
   exists sf, fetches st c_step c_pc c_rk (List.length (starts ops e0)) s0 = Some (starts ops e0, sf) /\\
              c_m sf = mbit ef /\\ c_x sf = xbit ef /\\ c_pc sf = address ef mod 65536 /\\ c_rk sf = bank.
-Proof. exact (C07_couple st c_step c_ok c_pc c_rk c_m c_x mem wrote c_ranges c_contract). Qed.
+Proof. exact (C07_couple st c_step c_ok c_pc c_rk c_m c_x mem wrote c_fn c_fv c_fc c_fz cond_branch c_ranges c_contract (c_br_contract cond_branch) (fun op H => proj2 (move_not_straight op H))). Qed.
+
+(* the same with ANY byte in memory at the position of a label operand (placeholder before / displacement after Finalize) *)
+Theorem C07_partial_patched_%(mod)s : forall ops e0 b s0,
+  straightline cond_branch ops e0 -> buf e0 = Some b -> 0 <= n e0 <= ZList.zlen b ->
+  let ef := fst (run ops e0) in
+  let bank := address e0 / 65536 in
+  0 <= address e0 < 16777216 ->
+  address e0 + (n ef - n e0) <= (bank + 1) * 65536 ->
+  (forall i, 0 <= i < n ef - n e0 -> hole ops e0 (n e0 + i) = false -> mem s0 (address e0 + i) = ZList.znth (Bytes ef) (n e0 + i)) ->
+  c_ok s0 -> addr24 (c_rk s0) (c_pc s0) = address e0 -> c_m s0 = mbit e0 -> c_x s0 = xbit e0 ->
+  nowrite st c_step wrote (List.length (starts ops e0)) s0 (address e0) (address e0 + (n ef - n e0)) ->
+  nottaken st c_step c_pc c_rk mem c_fn c_fv c_fc c_fz cond_branch (List.length (starts ops e0)) s0 ->
+  exists sf, fetches st c_step c_pc c_rk (List.length (starts ops e0)) s0 = Some (starts ops e0, sf) /\\
+             c_m sf = mbit ef /\\ c_x sf = xbit ef /\\ c_pc sf = address ef mod 65536 /\\ c_rk sf = bank.
+Proof. exact (C07_couple_patched st c_step c_ok c_pc c_rk c_m c_x mem wrote c_fn c_fv c_fc c_fz cond_branch c_ranges c_contract (c_br_contract cond_branch) (fun op H => proj2 (move_not_straight op H))). Qed.
+
+(* ---- block moves.  The clause: one Step over MVP / MVN keeps the bank and the widths and leaves PC on the instruction
+   or advances it by 3; memory changes only where a write is logged *)
+Lemma mv_len_b : forallb (fun op => (tbl_size op =? 3) && (tbl_mode op =? 22)) mv_ops = true.
+Proof. vm_compute. reflexivity. Qed.
+Lemma mv_covered : forall op, move_op op = true -> In op mv_ops.
+Proof. intros op H. destruct (move_cases op H) as [->| ->]; vm_compute; auto. Qed.
+Definition c_adm (op : Z) : bool := cond_branch op || move_op op.
+
+Theorem c_mv_contract : forall brs, mv_contract st c_step c_ok c_pc c_rk c_m c_x mem wrote brs.
+Proof.
+  intros brs s op [pc [rk [m [x [Hbm [Hbx Hi]]]]]] _ Hmo Hfetch.
+  destruct (c_ok_vals s pc rk m x Hi) as [E1 [E2 [E3 [E4 [R1 R2]]]]].
+  pose proof (mv_covered op Hmo) as Hin.
+  assert (R1' : 0 <= c_pc s < 65536) by (unfold rng in R1; change (2 ^ 16) with 65536 in R1; exact R1).
+  assert (R2' : 0 <= c_rk s < 256) by (unfold rng in R2; change (2 ^ 8) with 256 in R2; exact R2).
+  assert (Hf : mem s (w_or (shl32 rk 16) pc) mod 256 = op).
+  { rewrite E1, E2. rewrite lor_shl16 by assumption. exact Hfetch. }
+  pose proof (C07_mv_%(mod)s op Hin pc rk m x s Hbm Hbx Hi Hf) as Hc.
+  assert (Hsz : tbl_size op = 3).
+  { pose proof mv_len_b as Hl. rewrite forallb_forall in Hl. specialize (Hl op Hin). apply andb_true_iff in Hl. destruct Hl as [Hl _].
+    apply Z.eqb_eq in Hl. exact Hl. }
+  unfold c_step. destruct (Step s) as [r s'|]; cbn [safe] in Hc; [|contradiction].
+  destruct Hc as [Hi' Hfr]. exists s'. split; [reflexivity|].
+  let p := layer_pf Hi' f_PC s' in pose proof p as Hd. cbv beta in Hd.
+  assert (Hi2 : Inv (BT (eq (get f_PC s')) TT rk m x TT) s') by (eapply inv_relayer_self; [exact Hi' | self_tac]).
+  destruct (c_ok_vals s' _ _ _ _ Hi2) as [_ [F2 [F3 [F4 _]]]].
+  split; [eexists _, _, _, _; split; [exact Hbm | split; [exact Hbx | exact Hi2]]|].
+  split; [rewrite <- F2, <- E2; reflexivity|].
+  split; [rewrite <- F3, <- E3; reflexivity|].
+  split; [rewrite <- F4, <- E4; reflexivity|].
+  split.
+  { unfold c_pc at 1 3. rewrite Hsz in Hd. unfold add16 in Hd. rewrite <- E1.
+    destruct Hd as [Hd|Hd]; [left | right]; rewrite Hd; [|reflexivity].
+    rewrite Z.add_0_r. apply Z.mod_small. rewrite E1. exact R1'. }
+  intro a. apply Frame_mem. exact Hfr.
+Qed.
+
+(* non-vacuity, computed on the model: MVN #$00,#$00 at $00:8000 with C = 2 (M = X = 0), NOPs behind it: four Steps fetch at
+   $8000 $8000 $8000 $8003 -- the walk [expand [$8000; $8003] [3; 1]] of C07_couple_moves *)
+Definition ex_regs_mv (f : N) : Z :=
+  if N.eqb f f_PC then 32768 else if N.eqb f f_Interrupt then 1 else if N.eqb f f_RA then 2 else if N.eqb f f_RAl then 2 else 0.
+Definition ex_state_mv : st := mkst ex_regs_mv (fun a => if a =? 32768 then 84 else if (a =? 32769) || (a =? 32770) then 0 else 234) [] (fun _ => false) false.
+Example ex_fetch_mv : option_map fst (fetches st c_step c_pc c_rk 4 ex_state_mv) = Some [32768; 32768; 32768; 32771].
+Proof. vm_compute. reflexivity. Qed.
+
+(* C07 with block moves for this interpreter: Props/CoupleProps.C07_couple_moves instantiated (programs of straight-line
+   instructions, conditional branches not taken in the run, MVN / MVP): for every N, the first k <= N steps fetch exactly
+   at the instruction starts, in order, a block move as often as it repeats itself; then the program is finished with
+   the tracked widths, or the N steps are used up. *)
+Theorem C07_moves_%(mod)s : forall ops e0 b s0 N,
+  straightline c_adm ops e0 -> buf e0 = Some b -> 0 <= n e0 <= ZList.zlen b ->
+  let ef := fst (run ops e0) in
+  let bank := address e0 / 65536 in
+  0 <= address e0 < 16777216 ->
+  address e0 + (n ef - n e0) <= (bank + 1) * 65536 ->
+  (forall i, 0 <= i < n ef - n e0 -> hole ops e0 (n e0 + i) = false -> mem s0 (address e0 + i) = ZList.znth (Bytes ef) (n e0 + i)) ->
+  c_ok s0 -> addr24 (c_rk s0) (c_pc s0) = address e0 -> c_m s0 = mbit e0 -> c_x s0 = xbit e0 ->
+  nowrite st c_step wrote N s0 (address e0) (address e0 + (n ef - n e0)) ->
+  nottaken st c_step c_pc c_rk mem c_fn c_fv c_fc c_fz c_adm N s0 ->
+  walk st c_step c_ok c_pc c_rk c_m c_x ops e0 ef bank N s0.
+Proof. exact (C07_couple_moves st c_step c_ok c_pc c_rk c_m c_x mem wrote c_fn c_fv c_fc c_fz c_adm c_ranges c_contract (c_br_contract c_adm) (c_mv_contract c_adm)). Qed.
+
+(* ... in the form: the fetch addresses with consecutive duplicates removed are the instruction starts *)
+Theorem C07_moves_dedup_%(mod)s : forall ops e0 b s0 N,
+  straightline c_adm ops e0 -> buf e0 = Some b -> 0 <= n e0 <= ZList.zlen b ->
+  let ef := fst (run ops e0) in
+  let bank := address e0 / 65536 in
+  0 <= address e0 < 16777216 ->
+  address e0 + (n ef - n e0) <= (bank + 1) * 65536 ->
+  (forall i, 0 <= i < n ef - n e0 -> hole ops e0 (n e0 + i) = false -> mem s0 (address e0 + i) = ZList.znth (Bytes ef) (n e0 + i)) ->
+  c_ok s0 -> addr24 (c_rk s0) (c_pc s0) = address e0 -> c_m s0 = mbit e0 -> c_x s0 = xbit e0 ->
+  nowrite st c_step wrote N s0 (address e0) (address e0 + (n ef - n e0)) ->
+  nottaken st c_step c_pc c_rk mem c_fn c_fv c_fc c_fz c_adm N s0 ->
+  exists k j l sf, (k <= N)%%nat /\\ fetches st c_step c_pc c_rk k s0 = Some (l, sf) /\\ dedup l = firstn j (starts ops e0) /\\
+    ((dedup l = starts ops e0 /\\ c_m sf = mbit ef /\\ c_x sf = xbit ef /\\ c_pc sf = address ef mod 65536 /\\ c_rk sf = bank) \\/ k = N).
+Proof. exact (C07_couple_moves_dedup st c_step c_ok c_pc c_rk c_m c_x mem wrote c_fn c_fv c_fc c_fz c_adm c_ranges c_contract (c_br_contract c_adm) (c_mv_contract c_adm)). Qed.
 """
